@@ -10,9 +10,16 @@ static ALLOC: vlib::alloc::Counting = vlib::alloc::Counting;
 
 mod common;
 mod common_assets;
+mod corpus;
 mod ctx;
+mod hooks;
 mod interpose;
+mod keys;
+mod oracles;
+mod spec;
 
+mod c01;
+mod c16;
 mod c13;
 mod c15;
 mod c18;
@@ -82,6 +89,8 @@ fn main() {
 
 fn dispatch(ctx: &Ctx) -> i32 {
     match ctx.property.as_str() {
+        "C01" => c01::run(ctx),
+        "C16" => c16::run(ctx),
         "C13" => c13::run(ctx),
         "C15" => c15::run(ctx),
         "C18" => c18::run(ctx),
@@ -96,6 +105,8 @@ fn dispatch(ctx: &Ctx) -> i32 {
 
 fn dispatch_replay(ctx: &Ctx, v: &serde_json::Value) -> i32 {
     match ctx.property.as_str() {
+        "C01" => c01::replay(ctx, v),
+        "C16" => c16::replay(ctx, v),
         "C13" => c13::replay(ctx, v),
         "C15" => c15::replay(ctx, v),
         "C18" => c18::replay(ctx, v),
